@@ -140,6 +140,28 @@ func c10Gen(r *Rand, tier string, i int) Scenario {
 		for p := 0; p < np; p++ {
 			at.Payloads = append(at.Payloads, genC10Payload(r))
 		}
+		if r.Bool(0.06) {
+			// a well-formed mapreduce session (map + read of a readable file, so that
+			// lines really reach the aggregation) whose query is legal but unusually
+			// wide: many select items, many group-by fields, many conditions
+			k := PickOf(r, 8, 9, 12, 33, 70)
+			var fields []string
+			for f := 0; f < k; f++ {
+				fields = append(fields, PickOf(r, "$hostname", "$line", "$empty", "$timeoffset"))
+			}
+			q := "select count($line) from STATS group by " + strings.Join(fields, ",")
+			switch r.Intn(3) {
+			case 0:
+				q = "select " + strings.Join(fields, ",") + ",count($line) from STATS group by $hostname"
+			case 1:
+				conds := []string{}
+				for f := 0; f < k; f++ {
+					conds = append(conds, "$line ne \"x\"")
+				}
+				q = "select count($line) from STATS where " + strings.Join(conds, " and ") + " group by $hostname"
+			}
+			at.Payloads = append([]C10Payload{envelope("map " + q + " interval 1 logformat generic"), envelope("cat FILE regex:noop ")}, at.Payloads...)
+		}
 		sc.Attackers = append(sc.Attackers, at)
 	}
 	sc.Net = verifsimnet.Profile{LatencyMs: PickOf(r, 0, 1), ChunkMax: PickOf(r, 0, 0, 7, 1400)}
